@@ -87,3 +87,12 @@ Theorem C15_source_set_scalar : forall n nm P data0 v reduce fuel, (1 <= n)%nat 
   (Forall (fun p => 0 < p < 2 ^ 64) (firstn nm P) -> 0 <= v < 2 ^ 64 -> exists res, GenLoop.gen_set_scalar_u64 fuel (Z.of_nat n) data0 v reduce (Z.of_nat nm) P = Some res /\ const res).
 Proof. exact ScalarSetSpec.source_set_scalar. Qed.
 Print Assumptions C15_source_set_scalar.
+
+(* non-vacuity: the translated big-integer and scalar setters RUN on the 16- and 32-bit table rows: negative and huge integers get their
+   non-negative residues, a scalar above the modulus is reduced into coefficient 0 of every modulus, 0 clears the polynomial *)
+Example C15_source_nonvacuous :
+  option_map (fun s : SetterSpec.SS => fst (fst s)) (GenLoop.gen_set_mpz_u16 10%nat 4 (repeat 7 8) (-1 :: 15362 :: -15361 :: 2 ^ 70 :: nil) 0 4 2 (15361 :: 13313 :: nil))
+    = Some (15360 :: 1 :: 0 :: 8592 :: 13312 :: 2049 :: 11265 :: 2722 :: nil) /\
+  GenLoop.gen_set_scalar_u32 10%nat 4 (repeat 7 8) 1073479682 true 2 (1073479681 :: 1072496641 :: nil) = Some (1 :: 0 :: 0 :: 0 :: 983041 :: 0 :: 0 :: 0 :: nil) /\
+  GenLoop.gen_set_scalar_u32 10%nat 4 (repeat 7 8) 0 true 2 (1073479681 :: 1072496641 :: nil) = Some (repeat 0 8).
+Proof. vm_compute. repeat split. Qed.
